@@ -33,6 +33,9 @@ func main() {
 	if *replay != "" {
 		os.Exit(check.Replay(id, *replay))
 	}
+	if id == "SELFTEST" {
+		os.Exit(check.SelfTest())
+	}
 	fn, ok := check.Props[id]
 	if !ok {
 		fmt.Fprintln(os.Stderr, "unknown property", id)
